@@ -65,6 +65,11 @@ def run_c05(tier, seed):
                 kind = rng.choice(["mget", "del", "mset", "get", "mget"])
                 nk = 1 if kind == "get" else rng.choice([1, 2, 2, 3])
                 slots = [sl + "~" if k % 4 == 3 and rng.random() < 0.5 else sl for _ in range(nk)]
+                if kind != "get" and k % 2 == 0 and rng.random() < 0.6:
+                    # keys of two or three slots interleaved (X Y X, P Q X Y X ...): each key goes where its own slot lives
+                    pool = rng.sample(["A", "B", "C", "A2", "B2", "C2"], rng.choice([2, 2, 3]))
+                    nk = rng.choice([3, 4, 5])
+                    slots = [rng.choice(pool) for _ in range(nk)]
                 rq = {"k": kind, "slots": slots, "args": [], "dups": [-1] * nk}
                 if k % 3 == 1 and rng.random() < 0.6:
                     # long keys: padding behind the token, or in front of the hash tag (a tag that starts after 64 .. 5 000 bytes)
@@ -205,13 +210,24 @@ def run_c19(tier, seed):
                 for x in v["viol"]:
                     r = json.loads(lines[off + x["tid"] - 1])
                     viol.append({"prop": "C19", "code": x["code"], "tid": off + x["tid"], "case": {"record": r, "sequence": index.get(r["seq"])}})
+        # end to end, the buffers as the connections use them (inbound leftovers of cut requests, assembled with later reads):
+        # successive cut requests on one connection must come out exactly as their uncut twins do
+        import gen_core
+        c8 = {"masters": 3, "mode": "step"}
+        e2e = gen_core.gen_seg_seq(seed, 25 if q else 500, common.slot_tags(c8))
+        r = common.replay_and_validate(c8, e2e, wd, "c19e2e", par=8, group=4)
+        states += r["states"]; trans += r["transitions"]
+        for v in r["viol"]:
+            if v["prop"] == "DEAD" or (v["prop"] == "C08" and v["code"] == "segmentation-changes-outcome"):
+                viol.append({"prop": "C19" if v["prop"] == "C08" else v["prop"], "code": "inbound-leftovers-corrupted:" + v["code"], "tid": v["tid"],
+                             "case": {"cfg": c8, "scenario": v.get("scenario")}})
         nontriv = sum(1 for ops in seqs if any(o["op"] in ("read", "peek", "discard") for o in ops) and sum(o["n"] + sum(o["ns"]) for o in ops if o["op"].startswith("write")) > 4096)
         cov = {"states": states, "transitions": trans, "traces": len(seqs) * len(BQ_TYPES), "nontrivial": nontriv * len(BQ_TYPES),
                "rule": "operation sequences generated by TLC (-simulate of spec/ByteQueue.tla, size menu around 1024/4096/65536) and seeded random "
                        "sequences, each run on ring(1024), ring(4096), elastic.RingBuffer, linkedlist, elastic(4096), elastic(65536); non-trivial = "
                        "writes more than 4096 bytes and drains; every operation's result, bytes (run-length encoded) and reported length is "
                        "checked by TLC against ByteQueue!Expect",
-               "samples": [index[1], index[len(index)]] if index else [{}], "operations": len(lines)}
+               "samples": [index[1], index[len(index)]] if index else [{}], "operations": len(lines), "end_to_end_scenarios": len(e2e)}
         return viol, cov
     finally:
         shutil.rmtree(wd, ignore_errors=True)
